@@ -546,7 +546,7 @@ func genC19(g *Gen) {
 	caps := []int{0, 1, 32, 64}
 
 	// 1. small random trees x selectors x prior destinations
-	n := g.Vol(110, 2600)
+	n := g.Vol(900, 5000)
 	for i := 0; i < n; i++ {
 		o := TreeOpts{MaxEntries: 3 + r.Intn(16), MaxDepth: 4, Names: small, Types: r.Chance(50), HardLinks: r.Chance(50),
 			Xattrs: r.Chance(30), BigFiles: r.Chance(15), Owners: true}
@@ -589,7 +589,7 @@ func genC19(g *Gen) {
 	}
 
 	// 2. listings spanning 1..6 buffer chunks (many entries, long names); few entries selected
-	n = g.Vol(7, 60)
+	n = g.Vol(12, 90)
 	for i := 0; i < n; i++ {
 		chunks := 1 + i%6
 		src := c19BigView(r, chunks)
@@ -615,7 +615,7 @@ func genC19(g *Gen) {
 
 	// 3. single stats larger than one chunk (long xattr value; the key has no valid namespace,
 	//    so that the receiver's LSetxattr fails and is ignored as in the code) next to small ones
-	n = g.Vol(5, 40)
+	n = g.Vol(10, 80)
 	for i := 0; i < n; i++ {
 		src := GenView(r, TreeOpts{MaxEntries: 8, MaxDepth: 2, Names: small[:8], Owners: true})
 		stats := c19Walk(src)
@@ -649,7 +649,7 @@ func genC19(g *Gen) {
 	}
 
 	// 4. buffer kind: record size sequences around the chunk boundary
-	n = g.Vol(60, 1500)
+	n = g.Vol(300, 3000)
 	cs := fsutil.VerifChunkSize
 	for i := 0; i < n; i++ {
 		k := 1 + r.Intn(12)
